@@ -186,6 +186,33 @@ theorem train_fields {k : Kern R} {X : Mat R} {y : List R} {nm : Noise R} {gp : 
       cases h
       exact ⟨rfl, rfl, rfl, rfl⟩
 
+
+/-- every cached field of what `train` returns is computed from the SAME factor of the same `K = kernel + noise` -/
+theorem train_coherent {k : Kern R} {X : Mat R} {y : List R} {nm : Noise R} {gp : Gp R}
+    (h : train k X y nm = .ok gp) :
+    ∃ K, addNoise nm (covMat k X X) = .ok K ∧ cholesky K = some gp.chol
+      ∧ gp.alpha = cholSolve gp.chol y ∧ gp.kInv = cholInverse gp.chol := by
+  unfold train at h
+  cases hn : addNoise nm (covMat k X X) with
+  | error e => rw [hn] at h; cases h
+  | ok K =>
+    rw [hn] at h
+    simp only [bind, Except.bind] at h
+    cases hc : cholesky K with
+    | none => rw [hc] at h; cases h
+    | some L =>
+      rw [hc] at h
+      simp only at h
+      split_ifs at h with hy
+      cases h
+      exact ⟨K, rfl, hc, rfl, rfl⟩
+
+/-- with exactly `n_parameters` values, `consume_parameters` is `reparameterize` and nothing is left over -/
+theorem consume_parameters_exact (k : Kern R) (ps : List R) (k' : Kern R) (hl : ps.length = k.nParameters)
+    (hk : k.reparameterize ps = .ok k') : k.consumeParameters ps = .ok (k', []) := by
+  simp only [Kern.consumeParameters]
+  rw [if_neg (by omega), ← hl, List.take_length, List.drop_length, hk]
+  rfl
 end Params
 
 section Bridge
